@@ -267,7 +267,22 @@ func streamSyntax(seed uint64, idx int) caseT {
 		}
 	}
 	e1, e2 := render(t, 0, nil), render(t, 2, g.r)
-	return caseT{lines: []string{"C " + hexField(e1), "W " + hexField(e1) + " " + hexField(e2), "S " + hexField(e1) + " " + canonOf(syntaxDoc)}}
+	lines := []string{"C " + hexField(e1), "W " + hexField(e1) + " " + hexField(e2)}
+	// The damage above can strip the order-insensitive consumer the generator wraps around
+	// keys()/values()/.* of multi-member objects (length(values({a:..,b:..})) -> values({..})), and Go's
+	// map iteration order would then show in the result: such expressions are compared by AST only.
+	if !orderExposed(e1) {
+		lines = append(lines, "S "+hexField(e1)+" "+canonOf(syntaxDoc))
+	}
+	return caseT{lines: lines}
+}
+
+// orderExposed: the text may iterate over an object built by a multi-select hash or merge().
+func orderExposed(e string) bool {
+	if !strings.Contains(e, "{") && !strings.Contains(e, "merge") {
+		return false
+	}
+	return strings.Contains(e, "keys") || strings.Contains(e, "values") || strings.Contains(e, "*")
 }
 
 var byteAlphabet = []string{"a", "Z", "_", "0", "9", "-", " ", "\t", "\n", "\r", "\v", "\f", ".", "*", "[", "]", "?", "{", "}", "(", ")",
